@@ -17,7 +17,7 @@ for line in open(os.path.join(root, "FIRSTRUN.rows")):
     if len(p) >= 2:
         first[p[0]] = p[1]
 # the second round (ids -C, -D): first run recorded in FIRSTRUN2.rows in the row format of MATRIX.rows
-for fr in ("FIRSTRUN2.rows", "FIRSTRUN3.rows"):
+for fr in ("FIRSTRUN2.rows", "FIRSTRUN3.rows", "FIRSTRUN4.rows"):
     if not os.path.exists(os.path.join(root, fr)):
         continue
     for line in open(os.path.join(root, fr)):
